@@ -17,6 +17,12 @@ def analyse(seed):
   out = {'fails': [], 'known': [], 'seed': seed}
   kind = rng.choice(['plain', 'plain', 'plain', 'spike'])
   spec = tbrfam.gen_frame(seed, cooldown=True, scenario=rng.choice(['fixed', 'variable']))
+  r3 = random.Random(seed * 29 + 3)
+  if spec['scenario'] == 'variable' and kind == 'plain' and r3.random() < 0.35:
+    kind = 'constant-control-cost'          # control geos on a constant daily budget: the cost regression is rank-deficient
+    for g in spec['geos']:
+      if g['group'] == 1:
+        g['cost'] = [float(4 * (1 + g['id'] % 3))] * len(g['cost'])
   if kind == 'spike':           # control spike on the first test date: the cumulative scale decreases afterwards
     for g in spec['geos']:
       if g['group'] == 1:
@@ -119,7 +125,7 @@ def run(tier):
         known[klass] = known.get(klass, 0) + 1
   ck.sample({'seed': res[0]['seed'], 'kind': res[0].get('kind')})
   ck.cov['rule'] = ('experiment frames with cooldown (only pre / test / cooldown periods), fixed or variable cost, one in four with a control '
-                    'spike on the first test date; on a fresh object or (40%) one that analysed an experiment of the other cost scenario before; the cost scenario is decided from the frame, not by the implementation; both metrics; level in {.9,.8,.95,.6,.3} x tails; checks: report succeeds, bounds '
+                    'spike on the first test date; variable-cost frames with the control geos on a constant daily budget (rank-deficient cost regression); on a fresh object or (40%) one that analysed an experiment of the other cost scenario before; the cost scenario is decided from the frame, not by the implementation; both metrics; level in {.9,.8,.95,.6,.3} x tails; checks: report succeeds, bounds '
                     'ordered on every date, counterfactual + difference = observed, pre-period differences = residuals, last cumulative '
                     'row = posterior location and quantiles')
   kinds['reused_object'] = sum(1 for o in res if o.get('reused'))
